@@ -16,12 +16,13 @@
                     (the partial item stays consumed)
     psf_fwrite      same shape
     psf_ftell       vio -> callback; pipe -> pipeoffset; else lseek (fd, 0, SEEK_CUR) - fileoffset (-1 on failure)
-    psf_get_filelen vio -> callback; fstat size, then by mode: WRITE size - fileoffset; READ `filelength` when
-                    fileoffset > 0 and filelength > 0, else the size OF THE WHOLE DESCRIPTOR; RDWR the size
-    psf_ftruncate   NO virtual_io test and NO fileoffset: ftruncate (filedes, len)  — filedes is -1 on the vio route
+    psf_get_filelen vio -> callback; fstat size, then by mode: WRITE size - fileoffset; READ with fileoffset > 0: `filelength`
+                    when set, else size - fileoffset (before 0003-fix: the size OF THE WHOLE DESCRIPTOR, `getFilelenOld`); RDWR the size
+    psf_ftruncate   vio -> -1, nothing touched; else ftruncate (filedes, len + fileoffset)
+                    (before 0001/0002-fix: no virtual_io test, no fileoffset, `ftruncateOld`)
     psf_fclose      vio -> 0; do_not_close_descriptor -> forget the descriptor; else close (filedes) when filedes >= 0
     sf_open_fd      SD2 refusal (closes the descriptor iff close_desc), do_not_close := !close_desc, is_pipe, fileoffset := psf_ftell
-    psf_open_file   (head) is_pipe, filelength, the fileoffset > 0 switch (READ: < 44 refused; WRITE: append at the end;
+    psf_open_file   (head) is_pipe, filelength, the fileoffset > 0 switch (READ: < 24 refused, 44 before 0004-fix; WRITE: append at the end;
                     RDWR refused); (tail) the embedding whitelist; error exit runs psf_fclose
 
   Simplifications, all recorded in the evidence: sf_count_t is an unbounded `Int` (no 2^63 overflow of bytes*items);
@@ -176,10 +177,28 @@ def getFilelen (sh : Shim) (w : World) : R :=
   if n = -1 then { ret := -1, sh := logSyserr sh, w := w } else
   match sh.mode with
   | .w => { ret := n - sh.fileoffset, sh := sh, w := w }
+  | .r => { ret := if sh.fileoffset > 0 then (if sh.filelength > 0 then sh.filelength else n - sh.fileoffset) else n, sh := sh, w := w }
+  | .rw => { ret := n, sh := sh, w := w }
+
+/-- psf_get_filelen before the repair (0003-fix-psf_get_filelen…): in SFM_READ the size of the whole descriptor until
+    `filelength` was set -/
+def getFilelenOld (sh : Shim) (w : World) : R :=
+  if sh.virtualIo then { ret := w.mem.length, sh := sh, w := w } else
+  let n := fstatSize w sh.filedes
+  if n = -1 then { ret := -1, sh := logSyserr sh, w := w } else
+  match sh.mode with
+  | .w => { ret := n - sh.fileoffset, sh := sh, w := w }
   | .r => { ret := if sh.fileoffset > 0 ∧ sh.filelength > 0 then sh.filelength else n, sh := sh, w := w }
   | .rw => { ret := n, sh := sh, w := w }
 
 def ftruncate (sh : Shim) (w : World) (len : Int) : R :=
+  if len < 0 then { ret := -1, sh := sh, w := w } else
+  if sh.virtualIo then { ret := -1, sh := sh, w := w } else          -- no truncate callback: refused, nothing touched
+  let r := osTruncate w sh.filedes (len + sh.fileoffset).toNat
+  { ret := r.1, sh := if r.1 = -1 then logSyserr sh else sh, w := r.2 }
+
+/-- psf_ftruncate before the repairs (0001, 0002): no virtual_io test (ftruncate (-1): EBADF) and no fileoffset -/
+def ftruncateOld (sh : Shim) (w : World) (len : Int) : R :=
   if len < 0 then { ret := -1, sh := sh, w := w } else
   let r := osTruncate w sh.filedes len.toNat
   { ret := r.1, sh := if r.1 = -1 then logSyserr sh else sh, w := r.2 }
@@ -292,10 +311,13 @@ def openFileLen (sh : Shim) (w : World) : Shim :=
                  error := (getFilelen { sh with isPipe := false } w).sh.error }
 
 /-- psf_open_file: the `if (psf->fileoffset > 0)` switch -/
+def minEmbedded : Int := 24      -- AU header; 44 (a WAV header) before 0004-fix-embedded-files-shorter-than-44…
+def minEmbeddedOld : Int := 44
+
 def openFileEmbed (sh : Shim) (w : World) : OpenRes :=
   if sh.fileoffset > 0 then
     match sh.mode with
-    | .r => if sh.filelength < 44 then failOpen .badOffset sh w else { err := .none, sh := sh, w := w }
+    | .r => if sh.filelength < minEmbedded then failOpen .badOffset sh w else { err := .none, sh := sh, w := w }
     | .w =>
       { err := .none,
         sh := { (ftell (fseek { sh with fileoffset := 0 } w 0 2).sh (fseek { sh with fileoffset := 0 } w 0 2).w).sh with
@@ -312,7 +334,8 @@ def openFileHead (sh : Shim) (w : World) : OpenRes := openFileEmbed (openFileLen
     files when the header says less than the file holds -/
 def clampDeclared (sh : Shim) (au : Bool) (declared : Int) : Shim :=
   if au then
-    (if sh.fileoffset > 0 ∨ declared < sh.filelength then { sh with filelength := declared } else sh)
+    -- au.c:322 after 0005-fix: an embedded file trusts the header only when the announced data are there
+    (if (sh.fileoffset > 0 ∧ declared ≤ sh.filelength) ∨ declared < sh.filelength then { sh with filelength := declared } else sh)
   else if sh.fileoffset > 0 ∧ sh.filelength > declared then { sh with filelength := declared } else sh
 
 /-- psf_open_file after the container's open function returned 0 with major format `major` -/
